@@ -16,8 +16,10 @@ RULE = ("Space A: every doccomment body of <=N lines over the atom alphabet (one
         "the block and on the page.  non-trivial = body has >=1 non-empty line; distinct by (carrier, body, indent)")
 
 ATOMS = ["word", "two words.", "#hash", "##", "[br]", "]x", "[", ":field: v", ".. note:: n", " one-space", "  two",
-         "    four", "", "trailing  ", "tab\tin", "café → ✓ \U0001F600", "#]", "!?*|`_\\", "]"]
-CORE = ["word", "#hash", "[br]", "  two", "", "café → ✓ \U0001F600", ":field: v", "]x", "trailing  ", ".. note:: n"]
+         "    four", "", "trailing  ", "tab\tin", "café → ✓ \U0001F600", "#]", "!?*|`_\\", "]",
+         "e\u0301 \u212b \uf900 \u1100\u1161"]   # not NFC/NFKC-stable: combining mark, compatibility and conjoining code points
+CORE = ["word", "#hash", "[br]", "  two", "", "café → ✓ \U0001F600", ":field: v", "]x", "trailing  ", ".. note:: n",
+        "e\u0301 \u212b \uf900 \u1100\u1161"]
 INDENTS = ["", " ", "  ", "    ", "      ", "        ", "\t", "\t\t", " \t"]
 CARRIERS = ["function", "macro", "set", "option", "generic", "add_test", "ct_add_test", "ct_add_section",
             "class1", "class2", "class3", "attr1", "attr3", "member1", "member2", "member3", "ctor1", "ctor2",
@@ -122,8 +124,39 @@ def judge(page_text, events, targets):
     return msgs
 
 
+def check_twins(job):
+    """the same documented command (same name, same doc text) twice in one module, e.g. in two branches"""
+    _, carrier, body = job
+    e1, i1 = carrier_events(carrier, body, "twin")
+    e1 = cmakegen.close(e1)
+    for j, ev in enumerate(e1):
+        if ev["k"] not in ("close", "module"):
+            ev["name"] = cmakegen.name_of(ev, j) if "name" not in ev else ev["name"]
+    events = [{"k": "if", "doc": 0}] + e1 + [{"k": "close"}, {"k": "if", "doc": 0}] + [dict(e) for e in e1] + [{"k": "close"}]
+    text = cmakegen.text_of(events)
+    r = pipeline.document_text(text)
+    msgs = []
+    if r["page"] is None:
+        msgs = [f"error: pipeline failed: {r['error']}"]
+    else:
+        page = rstobs.Page(r["page"])
+        blocks = find_block(page, events, 1 + i1)
+        exp = [l for l in body]
+        hits = 0
+        for b in blocks:
+            ci = b.content_indent or 0
+            own = [l[ci:] if l.strip() else "" for l in b.body]
+            hits += 1 if run_matches(own, exp) else 0
+        if hits != 2:
+            msgs.append(f"twins: the doccomment of two identical documented {carrier} commands is found in {hits} "
+                        f"directives, expected 2 (a line was dropped or attributed elsewhere)")
+    return {"viol": msgs, "obs": common.digest(r["page"] or ""), "nt": common.digest(job), "cls": "twins" if msgs else None}
+
+
 def check(job):
     mode = job[0]
+    if mode == "twin":
+        return check_twins(job)
     if mode == "single":
         _, carrier, body, indent, leader = job
         events, idx = carrier_events(carrier, body)
@@ -173,7 +206,7 @@ def run(ctx):
                 jobs.append(("single", "function", list(b), ind, True))
     na = len(jobs)
     # Space B
-    core_b = CORE[:6]
+    core_b = CORE[:6] + CORE[-1:]
     for carrier in CARRIERS:
         for b in bodies(core_b, 2 if quick else 3):
             for ind in ("", "  ", "      ", "\t"):
@@ -192,6 +225,12 @@ def run(ctx):
                 continue
             for a in pair_atoms if not quick else pair_atoms[:2]:
                 jobs.append(("pair", c1, c2, [f"Marker first {c1}.", a], [a, f"Marker second {c2}."], "", True))
+    # twins: the same documented command twice (e.g. in the branches of an if)
+    for c in CARRIERS:
+        if c.startswith("module") or c.startswith(("attr", "member", "ctor", "class")) and c[-1] != "1":
+            continue
+        for a in (["Twin doc line."], ["Twin doc.", "", "  second"]):
+            jobs.append(("twin", c, a))
     nc = len(jobs) - na - nb
     ctx.cov["bounds"] = {"atoms": ATOMS, "core": CORE, "indents": INDENTS, "carriers": CARRIERS,
                          "space_A": na, "space_B": nb, "space_C": nc}
